@@ -22,6 +22,8 @@ BIN = os.path.join(runner.STUBS, 'bin')
 PATHS = ['src/main.rs', 'a.py', 'lib/util-x.c', 'src/co-7-fig.rs', 'x/y.z/w.js', 'doc/read me.md', 'etc/META-INF/foo.properties',
          'v1.2/a_b.go', 'Makefile', 'dir-1/sub_2/file.name.txt', 'ünï/cödé.rs', 'LICENSE', 'build.gradle.kts']
 LOOKALIKE = re.compile(r'[\w-]+\.\w+[:=-]\d+[:=-]')
+PATH_WITH_EXT = re.compile(r'^[^:| ][^:]*[^ :]\.[^. :=-]{1,10}$')    # what delta's numbered-line pattern takes for a path
+EXT_THEN_SEP = re.compile(r'[^ ]\.[^. :=-]{1,10}[:=-]')
 
 
 def plan(ctx):
@@ -29,7 +31,7 @@ def plan(ctx):
     return [('case', engine.stable_hash((ctx.seed, 'c16', i))) for i in range(n)]
 
 
-def gen_model(rng, fmt):
+def gen_model(rng, fmt, headers=False):
     files = []
     used = set()
     for _ in range(rng.randint(1, 3)):
@@ -46,9 +48,12 @@ def gen_model(rng, fmt):
             ln += rng.choice([1, 1, 1, 2, 5, 40])
             while True:
                 code = gen.rand_text(rng, 60, allow_empty=False, unicode_ok=True, tabs_ok=False)
+                if rng.random() < 0.04:
+                    # "x.word" directly followed by a separator: make rules, attribute updates
+                    code = rng.choice(['foo.o: foo.c', 'self.count-=1', 'CFLAGS.debug=-g', 'if x.y: pass', 'a.b-c']) + ' ' + code[:20]
                 if rng.random() < 0.3:
                     code = rng.choice(['\t', '\t\t', '    ']) + code     # leading indentation
-                if not code.strip():
+                if not code.strip() or code.strip() == '--':
                     continue
                 if fmt.startswith('plain') and LOOKALIKE.search(code):
                     continue
@@ -56,6 +61,8 @@ def gen_model(rng, fmt):
                     continue    # the path itself followed by "<sep>digits<sep>" at the start of the code
                 break
             kind = 'match' if rng.random() < 0.7 else 'context'
+            if headers and rng.random() < 0.25:
+                kind = 'header'
             subs = []
             if kind == 'match':
                 idxs = [len(code[:k].encode('utf-8')) for k in range(len(code) + 1)]
@@ -94,7 +101,7 @@ def serialise(model, fmt, rng):
         prev = None
         any_context = any(k == 'context' for _, k, _, _ in hits)
         for ln, kind, code, subs in hits:
-            sep = ':' if kind == 'match' else '-'
+            sep = ':' if kind == 'match' else ('=' if kind == 'header' else '-')
             if prev is not None and any_context and ln > prev + 1:
                 out.append(E + '[36m--' + E + '[m' if fmt.startswith('color') else '--')
             prev = ln
@@ -119,7 +126,10 @@ def run_item(item):
     _, seed = item
     rng = engine.item_rng(seed)
     fmt = rng.choice(['json', 'json', 'color-n', 'color-n', 'color', 'plain-n', 'plain-n', 'plain'])
-    model = gen_model(rng, fmt)
+    func_ctx = None
+    if fmt in ('color-n', 'plain-n') and rng.random() < 0.3:
+        func_ctx = rng.choice(['-p', '-W'])      # git grep --show-function / --function-context
+    model = gen_model(rng, fmt, headers=func_ctx is not None)
     if not model:
         return inconclusive('empty model')
     text = serialise(model, fmt, rng)
@@ -128,6 +138,17 @@ def run_item(item):
             '--grep-match-line-style': 'normal ' + T['grep_match_line'], '--grep-match-word-style': 'normal ' + T['grep_match_word'],
             '--grep-context-line-style': 'normal ' + T['grep_context'], '--syntax-theme': 'none', '--tabs': tabs}
     layout = rng.choice([None, 'ripgrep', 'classic'])
+    hh_file = False
+    if func_ctx:
+        layout = rng.choice([None, 'classic'])
+        opts['--grep-header-file-style'] = T['grep_hdr_file']
+        opts['--grep-header-decoration-style'] = T['grep_hdr_dec'] + ' ' + rng.choice(['box', 'ul', ''])
+        hh_num = True          # the default hunk-header-style is "line-number syntax"
+        if rng.random() < 0.6:
+            hhs = rng.choice(['file line-number syntax', 'file syntax', 'syntax', 'line-number'])
+            opts['--hunk-header-style'] = hhs
+            hh_file = 'file' in hhs
+            hh_num = 'line-number' in hhs
     if layout:
         opts['--grep-output-type'] = layout
     eff_layout = layout or ('ripgrep' if fmt == 'json' else 'classic')
@@ -144,7 +165,9 @@ def run_item(item):
         opts['--hyperlinks'] = True
     args = gen.to_args(opts)
     # delivery
-    if fmt == 'json':
+    if func_ctx:
+        delivery = 'stdin-parent-git-grep' + func_ctx
+    elif fmt == 'json':
         delivery = rng.choice(['stdin', 'delta-rg'])
     else:
         delivery = rng.choice(['stdin-parent-git-grep', 'delta-git-grep', 'stdin-parent-rg'] if fmt.startswith('color') or True else [])
@@ -157,12 +180,16 @@ def run_item(item):
         res = runner.run_delta(args + ['git', 'grep', '-n', 'pattern'], b'', env=env, path_prefix=BIN, stdin_is_none=True)
     elif delivery == 'stdin-parent-git-grep':
         res = runner.run_delta(args, text.encode(), parent_argv=['git', 'grep', '-n', 'pattern'])
+    elif func_ctx:
+        res = runner.run_delta(args, text.encode(), parent_argv=['git', 'grep', '-n', func_ctx, 'pattern'])
     elif delivery == 'stdin-parent-rg':
         res = runner.run_delta(args, text.encode(), parent_argv=['rg', '-n', 'pattern'])
     else:
         res = runner.run_delta(args, text.encode())
     c = crash_outcome(res, ID)
     if c is not None:
+        if c.get('violation'):
+            c['violation']['extra'] = {'input': text, 'delivery': delivery}
         return c
     if res.rc != 0:
         return inconclusive('exit %d: %s' % (res.rc, res.err[:120]))
@@ -172,7 +199,7 @@ def run_item(item):
     TAG = gen.TAG_BY_RGB
     CODE_BG = {'grep_match_line', 'grep_match_word', 'grep_context'}
 
-    cur = {'hit': None}
+    cur = {'hit': None, 'path': ''}
 
     def bad(key, what, exp, obs):
         shape = ''
@@ -181,16 +208,22 @@ def run_item(item):
             # the one input shape for which the plain format without numbers is misread (known finding)
             shape = ':context-line-whose-code-starts-with-a-separator'
             key = 'misparsed'
+        elif (h is not None and fmt.startswith('plain') and h[1] in ('context', 'header') and EXT_THEN_SEP.search('-' + h[2])
+              and (fmt == 'plain' or not PATH_WITH_EXT.match(cur['path']))):
+            # second misread shape (known finding): code holding "x.word" directly followed by a separator, e.g. the
+            # Makefile context line "Makefile-11-foo.o: foo.c" (numbered lines: extension-less paths only)
+            shape = ':context-line-whose-code-has-name.ext-then-separator'
+            key = 'misparsed'
         return violated('c16:%s:%s%s' % (key, fmt, shape), what, exp, obs, run=res, counters=counters, sets=sets,
                         extra={'input': text, 'delivery': delivery})
     # parse rows
     parsed = []
     for r in rws:
-        path = ''.join(c_.ch for c_ in r.cells if TAG.get(c_.fg) == 'grep_file')
+        path = ''.join(c_.ch for c_ in r.cells if TAG.get(c_.fg) in ('grep_file', 'grep_hdr_file'))
         num = ''.join(c_.ch for c_ in r.cells if TAG.get(c_.fg) == 'grep_ln')
         code_cells = [c_ for c_ in r.cells if TAG.get(c_.bg) in CODE_BG]
         if not path and not num and not code_cells:
-            parsed.append(('other', r.text()))
+            parsed.append(('other', r.text() if not all((TAG.get(c_.fg) == 'grep_hdr_dec') or c_.ch in '─│┌┐└┘├┤┬┴ ' for c_ in r.cells) else ''))
             continue
         # separator text between number/path and the code
         first_code = next((i for i, c_ in enumerate(r.cells) if TAG.get(c_.bg) in CODE_BG), len(r.cells))
@@ -205,6 +238,7 @@ def run_item(item):
     have_numbers = fmt == 'json' or fmt.endswith('-n')
     for p, hits in model:
         cur['hit'] = (hits[0][0], hits[0][1], hits[0][2])
+        cur['path'] = p
         if eff_layout == 'ripgrep':
             # group header row
             while pos < len(parsed) and parsed[pos][0] == 'other':
@@ -214,14 +248,41 @@ def run_item(item):
             pos += 1
         for ln, kind, code, subs in hits:
             cur['hit'] = (ln, kind, code)
+            bare_header = kind == 'header' and func_ctx == '-p' and not hh_num and not hh_file
+            found_bare = False
             while pos < len(parsed) and parsed[pos][0] == 'other':
                 if parsed[pos][1].strip() not in ('', '--'):
+                    if bare_header and code.replace('\t', ' ' * tabs).strip() in parsed[pos][1]:
+                        # header style shows neither path nor number: the row holds just the code
+                        found_bare = True
+                        pos += 1
+                        break
                     return bad('unexpected-row', 'unexpected row between hits', None, parsed[pos][1])
                 pos += 1
+            if found_bare:
+                counters['headers_compared'] = counters.get('headers_compared', 0) + 1
+                continue
             if pos >= len(parsed):
                 return bad('hit-missing', 'a hit is missing from the output', (p, ln, code), 'end of output')
             _, path, num, cells, between, row = parsed[pos]
             pos += 1
+            if kind == 'header' and func_ctx == '-p':
+                # function header: rendered like a hunk header; path only when the hunk-header style asks for it
+                rest = ''.join(c_.ch for c_ in row.cells if TAG.get(c_.fg) not in ('grep_file', 'grep_hdr_file', 'grep_ln', 'grep_hdr_dec'))
+                if hh_num and num.strip() != str(ln):
+                    return bad('header-number', 'function-context header does not show its line number', ln, num)
+                if not hh_num and num.strip() not in ('', str(ln)):
+                    return bad('header-number', 'function-context header shows another line number', ln, num)
+                if code.replace('\t', ' ' * tabs).strip() not in rest:
+                    return bad('header-code', 'function-context header does not show its code', code, rest)
+                if hh_file and path != p:
+                    return bad('header-path', 'function-context header does not show the path although the style asks for it', p, path)
+                if not hh_file and path:
+                    return bad('header-path', 'function-context header shows a path although the style does not ask for it', '', path)
+                counters['headers_compared'] = counters.get('headers_compared', 0) + 1
+                continue
+            if kind == 'header':
+                kind = 'context'      # with --function-context the header is an ordinary line of the function
             if eff_layout == 'classic' and path != p:
                 return bad('path', 'path shown for a hit differs', p, path)
             if eff_layout == 'ripgrep' and path:
@@ -242,6 +303,7 @@ def run_item(item):
             if eff_layout == 'classic' and have_numbers:
                 pad = '  ' if ln < 10 else (' ' if ln < 100 else '')
                 seps = [':', '-', '|', '=']
+
                 if not (len(between) >= 1 and between[0] in seps and between[1:] == pad):
                     return bad('separator-padding', 'text between the line number and the code is not separator + documented padding', 'sep + %r' % pad, between)
             counters['hits_compared'] += 1
